@@ -71,20 +71,27 @@ ENone   == Mk("none", <<>>, "", UNDEF, <<>>)
 \* ---------- the declarations every history is built over ----------
 \* user types T, T1 < T, U; one object each; for every type a TARGET fluent f_<type>,
 \* a VALUE fluent g_<type> and a parameter p_<type> of the actions "a" (instantaneous) and "d" (durative)
-Decl ==
+Decl == TLCEval(
   [types   |-> << [name |-> "T", parent |-> ""], [name |-> "T1", parent |-> "T"], [name |-> "U", parent |-> ""] >>,
    objects |-> << [name |-> "oT", type |-> "T"], [name |-> "oT1", type |-> "T1"], [name |-> "oU", type |-> "U"] >>,
    fluents |-> [i \in 1..Len(TargetNames) |-> [name |-> "f_" \o TargetNames[i], type |-> TypeByName(TargetNames[i])]]
                \o [i \in 1..Len(TypeNames) |-> [name |-> "g_" \o TypeNames[i], type |-> TypeByName(TypeNames[i])]],
-   params  |-> [i \in 1..Len(TypeNames) |-> [name |-> "p_" \o TypeNames[i], type |-> TypeByName(TypeNames[i])]]]
+   params  |-> [i \in 1..Len(TypeNames) |-> [name |-> "p_" \o TypeNames[i], type |-> TypeByName(TypeNames[i])]]])
 
-Lookup(seq, n) == seq[CHOOSE i \in DOMAIN seq : seq[i].name = n]
-ObjType(o)    == Lookup(Decl.objects, o).type
-FluentType(f) == Lookup(Decl.fluents, f).type
-ParType(p)    == Lookup(Decl.params, p).type
-Parent(t)     == Lookup(Decl.types, t).parent
-RECURSIVE IsSub(_, _)
-IsSub(a, b) == a = b \/ (Parent(a) # "" /\ IsSub(Parent(a), b))
+\* lookup tables (TLCEval: TLC re-evaluates lazy function constructors on every application)
+TableOf(seq, field) == [n \in {seq[i].name : i \in DOMAIN seq} |->
+                          (seq[CHOOSE i \in DOMAIN seq : seq[i].name = n])[field]]
+ObjTypes    == TLCEval(TableOf(Decl.objects, "type"))
+FluentTypes == TLCEval(TableOf(Decl.fluents, "type"))
+ParTypes    == TLCEval(TableOf(Decl.params, "type"))
+Parents     == TLCEval(TableOf(Decl.types, "parent"))
+ObjType(o)    == ObjTypes[o]
+FluentType(f) == FluentTypes[f]
+ParType(p)    == ParTypes[p]
+RECURSIVE IsSubR(_, _)
+IsSubR(a, b) == a = b \/ (Parents[a] # "" /\ IsSubR(Parents[a], b))
+SubPairs == TLCEval({p \in (DOMAIN Parents) \X (DOMAIN Parents) : IsSubR(p[1], p[2])})
+IsSub(a, b) == <<a, b>> \in SubPairs
 
 IsConst(e) == e.op \in {"const", "obj"}
 ValOf(e) == IF e.op = "obj" THEN OV(e.name) ELSE e.v
@@ -99,8 +106,8 @@ TypeOfE(e) ==
 \* =========================================================================
 \* Declarative layer: value domains
 \* =========================================================================
-GridVals == {BV(TRUE), BV(FALSE)} \cup {Z(i) : i \in 0..10} \cup {NV(7, 2), NV(1, 2)}
-            \cup {OV(Decl.objects[i].name) : i \in DOMAIN Decl.objects}
+GridVals == TLCEval({BV(TRUE), BV(FALSE)} \cup {Z(i) : i \in 0..10} \cup {NV(7, 2), NV(1, 2)}
+                    \cup {OV(Decl.objects[i].name) : i \in DOMAIN Decl.objects})
 IsNumT(t) == t.k \in {"int", "real"}
 \* membership ignoring numeric bounds
 InKind(t, v) ==
@@ -125,7 +132,6 @@ ValueSet(e) == IF IsConst(e) THEN {ValOf(e)} ELSE {v \in GridVals : InDom(TypeOf
 \* insts     <<[t, v]>>                  ActionInstance of an action with ONE parameter of type t
 Empty == [has |-> FALSE, fluents |-> <<>>, tdefaults |-> <<>>, init |-> <<>>, effs |-> <<>>, insts |-> <<>>]
 
-FluentRec(m, f) == Lookup(m.fluents, f)
 HasFluent(m, f) == \E i \in DOMAIN m.fluents : m.fluents[i].name = f
 
 \* every stored value is type-correct (value level); initial values and defaults are constants.
